@@ -976,4 +976,169 @@ theorem parseUnitsCore_cases (s : List Char) (hne : s ≠ []) :
     have hnb : ∀ c ∈ s, isBlank c = false := by simpa using hb
     exact ⟨hnb, parseUnitsCore_nonempty s hne hnb⟩
 
+/-! ### the `addunit` fold: which base unit each field ends up with -/
+
+def Acc.get (a : Acc) (f : String) : Option String :=
+  if f == "space" then a.space else if f == "time" then a.time else if f == "quantity" then a.qty else none
+
+theorem add_ok_get {a a' : Acc} {f su : String} {e : Int} (h : a.add f su e = .ok a') :
+    a'.get f = some su ∧ ∀ g v, a.get g = some v → a'.get g = some v := by
+  unfold Acc.add at h
+  split at h
+  · rename_i hf
+    have hf' : f = "space" := by simpa using hf
+    subst hf'
+    split at h
+    · rename_i hc
+      cases h
+      refine ⟨by simp [Acc.get], ?_⟩
+      intro g v hg
+      simp only [Acc.get] at hg ⊢
+      split
+      · rename_i hgs
+        rw [if_pos hgs] at hg
+        simp only [Bool.or_eq_true, beq_iff_eq] at hc
+        rcases hc with hc | hc
+        · rw [hc] at hg; cases hg
+        · rw [hc] at hg; exact hg
+      · rename_i hgs
+        rw [if_neg hgs] at hg
+        exact hg
+    · cases h
+  · split at h
+    · rename_i hf0 hf
+      have hf' : f = "time" := by simpa using hf
+      subst hf'
+      split at h
+      · rename_i hc
+        cases h
+        refine ⟨by simp [Acc.get], ?_⟩
+        intro g v hg
+        simp only [Acc.get] at hg ⊢
+        split
+        · rename_i hgs; rw [if_pos hgs] at hg; exact hg
+        · rename_i hgs
+          rw [if_neg hgs] at hg
+          split
+          · rename_i hgt
+            rw [if_pos hgt] at hg
+            simp only [Bool.or_eq_true, beq_iff_eq] at hc
+            rcases hc with hc | hc
+            · rw [hc] at hg; cases hg
+            · rw [hc] at hg; exact hg
+          · rename_i hgt; rw [if_neg hgt] at hg; exact hg
+      · cases h
+    · split at h
+      · rename_i hf0 hf1 hf
+        have hf' : f = "quantity" := by simpa using hf
+        subst hf'
+        split at h
+        · rename_i hc
+          cases h
+          refine ⟨by simp [Acc.get], ?_⟩
+          intro g v hg
+          simp only [Acc.get] at hg ⊢
+          split
+          · rename_i hgs; rw [if_pos hgs] at hg; exact hg
+          · rename_i hgs
+            rw [if_neg hgs] at hg
+            split
+            · rename_i hgt; rw [if_pos hgt] at hg; exact hg
+            · rename_i hgt
+              rw [if_neg hgt] at hg
+              split
+              · rename_i hgq
+                rw [if_pos hgq] at hg
+                simp only [Bool.or_eq_true, beq_iff_eq] at hc
+                rcases hc with hc | hc
+                · rw [hc] at hg; cases hg
+                · rw [hc] at hg; exact hg
+              · rename_i hgq; rw [if_neg hgq] at hg; exact hg
+        · cases h
+      · cases h
+
+theorem addAll_ok_get {e : Int} : ∀ (cs : List (String × String × Int)) {a a' : Acc}, a.addAll e cs = .ok a' →
+    (∀ c ∈ cs, a'.get c.1 = some c.2.1) ∧ ∀ g v, a.get g = some v → a'.get g = some v := by
+  intro cs
+  induction cs with
+  | nil => intro a a' h; cases h; exact ⟨by simp, fun _ _ h => h⟩
+  | cons c cs ih =>
+    intro a a' h
+    obtain ⟨f, su, m⟩ := c
+    simp only [Acc.addAll] at h
+    cases h1 : a.add f su (e * m) with
+    | error x => rw [h1] at h; cases h
+    | ok a1 =>
+      rw [h1] at h
+      have k1 := add_ok_get h1
+      have k2 := ih h
+      refine ⟨?_, fun g v hg => k2.2 g v (k1.2 g v hg)⟩
+      intro c hc
+      simp only [List.mem_cons] at hc
+      rcases hc with hc | hc
+      · subst hc; exact k2.2 _ _ k1.1
+      · exact k2.1 c hc
+
+/-- the contributions (field, base unit) named by a block -/
+def blockNames (b : Block) : List (String × String) :=
+  match symContrib (String.ofList b.sym) with
+  | .ok cs => cs.map fun c => (c.1, c.2.1)
+  | .error _ => []
+
+theorem addBlock_ok_get {a a' : Acc} {b : Block} (h : a.addBlock b = .ok a') :
+    (∀ n ∈ blockNames b, a'.get n.1 = some n.2) ∧ ∀ g v, a.get g = some v → a'.get g = some v := by
+  unfold Acc.addBlock at h
+  cases he : blockExp b with
+  | none => rw [he] at h; cases h
+  | some e =>
+    rw [he] at h
+    cases hc : symContrib (String.ofList b.sym) with
+    | error x => rw [hc] at h; cases h
+    | ok cs =>
+      rw [hc] at h
+      have k := addAll_ok_get cs h
+      refine ⟨?_, k.2⟩
+      intro n hn
+      simp only [blockNames, hc, List.mem_map] at hn
+      obtain ⟨c, hcm, rfl⟩ := hn
+      exact k.1 c hcm
+
+theorem addBlocks_ok_get : ∀ (bs : List Block) {a a' : Acc}, a.addBlocks bs = .ok a' →
+    (∀ b ∈ bs, ∀ n ∈ blockNames b, a'.get n.1 = some n.2) ∧ ∀ g v, a.get g = some v → a'.get g = some v := by
+  intro bs
+  induction bs with
+  | nil => intro a a' h; cases h; exact ⟨by simp, fun _ _ h => h⟩
+  | cons b bs ih =>
+    intro a a' h
+    simp only [Acc.addBlocks] at h
+    cases h1 : a.addBlock b with
+    | error x => rw [h1] at h; cases h
+    | ok a1 =>
+      rw [h1] at h
+      have k1 := addBlock_ok_get h1
+      have k2 := ih h
+      refine ⟨?_, fun g v hg => k2.2 g v (k1.2 g v hg)⟩
+      intro x hx n hn
+      simp only [List.mem_cons] at hx
+      rcases hx with hx | hx
+      · subst hx; exact k2.2 _ _ (k1.1 n hn)
+      · exact k2.1 x hx n hn
+
+/-- two blocks naming different base units for one field make the second loop fail -/
+theorem finishBlocks_error_of_conflict (bs : List Block) (b1 b2 : Block) (h1 : b1 ∈ bs) (h2 : b2 ∈ bs)
+    (f u1 u2 : String) (n1 : (f, u1) ∈ blockNames b1) (n2 : (f, u2) ∈ blockNames b2) (hne : u1 ≠ u2) :
+    (finishBlocks bs).isError = true := by
+  unfold finishBlocks
+  split
+  · rfl
+  · cases hab : ({} : Acc).addBlocks bs with
+    | error e => rfl
+    | ok a' =>
+      have k := (addBlocks_ok_get bs hab).1
+      have e1 := k b1 h1 _ n1
+      have e2 := k b2 h2 _ n2
+      simp only at e1 e2
+      rw [e1] at e2
+      exact absurd (Option.some.inj e2) hne
+
 end Strengths
